@@ -10,6 +10,12 @@ if os.path.exists(f'{root}/seeded/matrix.tsv'):
         f = l.rstrip('\n').split('\t')
         if len(f) >= 5:
             rows[f[0]] = f  # last run wins
+first_run = {}
+if os.path.exists(f'{root}/seeded/matrix_round2_first_run.tsv'):
+    for l in open(f'{root}/seeded/matrix_round2_first_run.tsv'):
+        f = l.rstrip('\n').split('\t')
+        if len(f) >= 3:
+            first_run[f[0]] = f[2]
 lines = ["Each seed is a change written by a sub-agent that saw only the property text (its own scratch",
          "worktree, nothing from /verif); it compiles, passes the 50-test suite and breaks the property",
          "(demonstration test in `seeded/<id>/`). `contract` = obligations that fail in the quick check of",
@@ -18,7 +24,7 @@ lines = ["Each seed is a change written by a sub-agent that saw only the propert
          "dropped).", "",
          "| seed | change (one line) | caught | contract obligations | bounded signatures |", "|---|---|---|---|---|"]
 n_c = n_b = n_any = 0
-ids = sorted(d for d in os.listdir(f'{root}/seeded') if re.match(r'C\d\d[ab]$', d))
+ids = sorted(d for d in os.listdir(f'{root}/seeded') if re.match(r'C\d\d[abc]$', d))
 for i in ids:
     meta = json.load(open(f'{root}/seeded/{i}/meta.json'))
     summ = meta.get('summary', '').replace('|', '/').replace('\n', ' ')
@@ -35,6 +41,8 @@ for i in ids:
     oc = r[5] if len(r) > 5 else ''; ob = r[6] if len(r) > 6 else ''
     caught = 'contract+bounded' if nc and nb else 'contract' if nc else 'bounded' if nb else '**missed**'
     n_c += bool(nc); n_b += bool(nb); n_any += bool(nc or nb)
+    if i in first_run and first_run[i] != 'exit=1':
+        caught += ' (missed at its first run, see below)'
     lines.append(f"| {i} | {summ} | {caught} | {oc.strip()} | {ob.strip()} |")
 lines += ["", f"Totals: {n_any} of {len([i for i in ids if not json.load(open(f'{root}/seeded/{i}/meta.json')).get('obsolete_after')])} applicable seeds caught ({n_c} by a failing contract obligation, {n_b} by the bounded stand-in)."]
 status = status.replace('@@MATRIX@@', '\n'.join(lines))
